@@ -3,7 +3,7 @@
    binary64 (Model/Scaling.v).  Histories run over a heap of numbered scale/offset arrays (aliasing between the
    header and the record); st/step/run are parametric in the arithmetic, q_run / f_run are the two instances. *)
 From Coq Require Import ZArith QArith Qabs List Bool.
-From LasV Require Import Lib.Base Gen.GenScaling Model.Scaling Proofs.ScalingProofs Proofs.ScalingFloat.
+From LasV Require Import Lib.Base Gen.GenScaling Model.Scaling Proofs.ScalingProofs Proofs.ScalingFloat Proofs.ScalingSession Proofs.ScalingRoundtrip.
 Import ListNotations.
 Open Scope list_scope.
 Open Scope Z_scope.
@@ -79,6 +79,36 @@ Theorem C11_float_rounding : forall q r, rnd64 q = Some r ->
   (Qabs (r - q) <= Qabs q * (1 # 2 ^ 53) + (1 # 2 ^ 1075))%Q.
 Proof. exact rnd64_error. Qed.
 Print Assumptions C11_float_rounding.
+
+(* the composed binary64 bound: v stored under (s, o) and presented again - five roundings (v - o, the quotient, float(X),
+   float(X) * s, ... + o), each within 2^-53 of its magnitude plus half the smallest subnormal, and numpy.round within one
+   half - is within half a step of v plus an explicit slack, for ALL finite doubles v, s > 0, o for which the results are
+   finite (in particular the stated ranges); X is the stored integer.  Second part: for a checked store |X| <= 2^31, so
+   the slack is explicit in v, s, o alone. *)
+Theorem C11_roundtrip_float_bound :
+  (forall v s o X x, (0 < s)%Q ->
+    f_store (Some v) (Some s) (Some o) = Some X ->
+    f_present X (Some s) (Some o) = Some x ->
+    (Qabs (x - v) <= s / 2 + (3 * Qabs (v - o) + 7 * (Qabs (inject_Z X) * s) + Qabs o) * (1 # 2 ^ 53) + 5 * (1 + s) * (1 # 2 ^ 1075))%Q)
+  /\
+  (forall v s o X x, (0 < s)%Q ->
+    f_store_checked (Some v) (Some s) (Some o) = Ok X ->
+    f_present X (Some s) (Some o) = Some x ->
+    (Qabs (x - v) <= s / 2 + (3 * Qabs (v - o) + 7 * (inject_Z (2 ^ 31) * s) + Qabs o) * (1 # 2 ^ 53) + 5 * (1 + s) * (1 # 2 ^ 1075))%Q).
+Proof. exact (conj f_roundtrip_bound f_roundtrip_bound_checked). Qed.
+Print Assumptions C11_roundtrip_float_bound.
+
+(* its two halves: the integer stored for v is within 1/2 + 3 * 2^-53 |q| (+ subnormal terms) of the exact quotient
+   q = (v - o) / s - the tolerance 1/2 + 2^-51 |q| of the failing-input search is implied by it - and what is presented for
+   a stored integer X is X*s + o up to three roundings *)
+Theorem C11_store_float_bound :
+  (forall v s o X, (0 < s)%Q -> f_store (Some v) (Some s) (Some o) = Some X ->
+    (Qabs (inject_Z X - (v - o) / s) <= (1 # 2) + (3 * Qabs (v - o) * (1 # 2 ^ 53) + 2 * (1 # 2 ^ 1075)) / s + (1 # 2 ^ 1075))%Q)
+  /\
+  (forall X s o x, (0 < s)%Q -> f_present X (Some s) (Some o) = Some x ->
+    (Qabs (x - (inject_Z X * s + o)) <= (7 * (Qabs (inject_Z X) * s) + Qabs o) * (1 # 2 ^ 53) + (3 + 4 * s) * (1 # 2 ^ 1075))%Q).
+Proof. exact (conj f_store_bound_steps f_present_bound). Qed.
+Print Assumptions C11_store_float_bound.
 
 (* ---- histories: header edits, assignments, change_scaling, writes; both arithmetics ---- *)
 
@@ -219,6 +249,117 @@ Theorem C11_assignment_syncs : gen_setattr_syncs = true /\ gen_xyz_syncs = true 
 Proof. exact sync_tables. Qed.
 Print Assumptions C11_assignment_syncs.
 
+(* ---- sessions: a writer / appender kept open while the caller goes on editing its header and its record ---- *)
+(* sst = the caller's LasData (base) + the open writer (wr: the ids of ITS scale/offset arrays, the integers written so far);
+   sstep / srun: every operation above, every assignment route (las.x =, las['x'] =, las.points.x =, las.x[idx] =,
+   las[['x','y','z']] =) with a value that may itself be a view (vsrc), in-place and replacing edits of the record's
+   scaling, SOpenHdr / SOpenWith / SWrite / SClose.  swf: the record's integers fit in 32 bits and no array the open
+   writer refers to is one the caller's header or record refers to. *)
+
+(* in the source the writer deep-copies the header it is given, and a named dimension is assigned through its view, a view
+   value being taken by its scaled values *)
+Theorem C11_writer_owns_its_header : gen_writer_copies_header = true /\ gen_assign_by_scaled_values = true.
+Proof. exact (conj eq_refl eq_refl). Qed.
+Print Assumptions C11_writer_owns_its_header.
+
+(* every integer of the record fits after any session history, and an open writer stays out of the caller's reach
+   (exact and binary64 arithmetic) *)
+Theorem C11_session_no_wrap :
+  (forall ops ss, swf ss -> swf (fst (q_srun ss ops))) /\ (forall ops ss, swf ss -> swf (fst (f_srun ss ops))).
+Proof. exact (conj q_srun_swf f_srun_swf). Qed.
+Print Assumptions C11_session_no_wrap.
+
+(* opening a writer with the caller's header: its arrays hold the header's scaling of that moment, nothing of the caller changes *)
+Theorem C11_session_open :
+  (forall ss, swf ss ->
+    let s := base ss in let r := q_sstep ss SOpenHdr in
+    snd r = ONone /\ same_objects s (base (fst r)) /\
+    exists w, wr (fst r) = Some w /\ w_cols w = [[]; []; []]
+      /\ get Q (heap (base (fst r))) (w_s w) = get Q (heap s) (h_s s) /\ get Q (heap (base (fst r))) (w_o w) = get Q (heap s) (h_o s))
+  /\
+  (forall ss, swf ss ->
+    let s := base ss in let r := f_sstep ss SOpenHdr in
+    snd r = ONone /\ same_objects s (base (fst r)) /\
+    exists w, wr (fst r) = Some w /\ w_cols w = [[]; []; []]
+      /\ get fl (heap (base (fst r))) (w_s w) = get fl (heap s) (h_s s) /\ get fl (heap (base (fst r))) (w_o w) = get fl (heap s) (h_o s)).
+Proof. exact (conj q_open_hdr f_open_hdr). Qed.
+Print Assumptions C11_session_open.
+
+(* a writer given another header (ws, wo), or an appender on a file with that scaling which already holds pre *)
+Theorem C11_session_open_with :
+  (forall ss ws wo pre, swf ss ->
+    let s := base ss in let r := q_sstep ss (SOpenWith ws wo pre) in
+    snd r = ONone /\ same_objects s (base (fst r)) /\
+    exists w, wr (fst r) = Some w /\ w_cols w = pre
+      /\ get Q (heap (base (fst r))) (w_s w) = ws /\ get Q (heap (base (fst r))) (w_o w) = wo)
+  /\
+  (forall ss ws wo pre, swf ss ->
+    let s := base ss in let r := f_sstep ss (SOpenWith ws wo pre) in
+    snd r = ONone /\ same_objects s (base (fst r)) /\
+    exists w, wr (fst r) = Some w /\ w_cols w = pre
+      /\ get fl (heap (base (fst r))) (w_s w) = ws /\ get fl (heap (base (fst r))) (w_o w) = wo).
+Proof. exact (conj q_open_with f_open_with). Qed.
+Print Assumptions C11_session_open_with.
+
+(* while the writer stays open (any operations but opening / closing: header edits in place or by replacement, edits of the
+   record's scaling, assignments by any route, change_scaling, las.write, other writers, further chunks) the same writer is
+   open and its scale and offset arrays hold exactly what they held *)
+Theorem C11_session_frozen :
+  (forall ops ss w, swf ss -> wr ss = Some w -> forallb keeps ops = true ->
+    let ss' := fst (q_srun ss ops) in
+    swf ss' /\ (exists c, wr ss' = Some (mkws (w_s w) (w_o w) c))
+    /\ get Q (heap (base ss')) (w_s w) = get Q (heap (base ss)) (w_s w)
+    /\ get Q (heap (base ss')) (w_o w) = get Q (heap (base ss)) (w_o w))
+  /\
+  (forall ops ss w, swf ss -> wr ss = Some w -> forallb keeps ops = true ->
+    let ss' := fst (f_srun ss ops) in
+    swf ss' /\ (exists c, wr ss' = Some (mkws (w_s w) (w_o w) c))
+    /\ get fl (heap (base ss')) (w_s w) = get fl (heap (base ss)) (w_s w)
+    /\ get fl (heap (base ss')) (w_o w) = get fl (heap (base ss)) (w_o w)).
+Proof. exact (conj q_srun_frozen f_srun_frozen). Qed.
+Print Assumptions C11_session_frozen.
+
+(* one chunk (chunk_outcome): the caller's state is exactly as before; on success the integers appended to the file are those
+   of file_axes under the WRITER's arrays (the record's own when the scalings agree, the rescaled ones otherwise, all in
+   32 bits; C11_file_half_step applies); on overflow OverflowError and nothing is appended *)
+Theorem C11_session_write :
+  (forall ss w, swf ss -> wr ss = Some w -> q_chunk_outcome ss w (q_sstep ss SWrite))
+  /\ (forall ss w, swf ss -> wr ss = Some w -> f_chunk_outcome ss w (f_sstep ss SWrite)).
+Proof. exact (conj q_session_write f_session_write). Qed.
+Print Assumptions C11_session_write.
+
+(* closing: the file carries what the writer's arrays hold - by C11_session_frozen the scaling it was opened with - and
+   the integers written chunk by chunk *)
+Theorem C11_session_close :
+  (forall ss w, wr ss = Some w ->
+    q_sstep ss SClose = (mksst (base ss) None, OFile (mkfile (get Q (heap (base ss)) (w_s w)) (get Q (heap (base ss)) (w_o w)) (w_cols w))))
+  /\
+  (forall ss w, wr ss = Some w ->
+    f_sstep ss SClose = (mksst (base ss) None, OFile (mkfile (get fl (heap (base ss)) (w_s w)) (get fl (heap (base ss)) (w_o w)) (w_cols w)))).
+Proof. exact (conj q_session_close f_session_close). Qed.
+Print Assumptions C11_session_close.
+
+(* ---- the value assigned may itself be a view: it is taken by the coordinates it presents (any arithmetic) ---- *)
+Theorem C11_assign_view_value : forall T present store restore teqb d ss a v,
+  sstep T present store restore teqb d ss (SAttr a v)
+  = with_base T ss (step T present store restore teqb d (base ss) (Assign a (vsrc_vals T present d (base ss) v)))
+  /\ sstep T present store restore teqb d ss (SRecAttr a v)
+  = with_base T ss (step T present store restore teqb d (base ss) (RecAssign a (vsrc_vals T present d (base ss) v)))
+  /\ (forall xs sc off, vsrc_vals T present d (base ss) (VOther xs sc off) = map (fun X => present X sc off) xs)
+  /\ (forall b idx, vsrc_vals T present d (base ss) (VSelf b idx) = pick (presented T present d (base ss) b) d idx).
+Proof. exact view_value_spec. Qed.
+Print Assumptions C11_assign_view_value.
+
+(* a view on the same grid (same scale AND same offset) hands its integers over unchanged; on any other grid (another
+   scale, or the same scale and another offset) the integer stored is the nearest one to the coordinate presented, within
+   half a step, or the assignment is refused *)
+Theorem C11_view_grid :
+  (forall X s o, (0 < s)%Q -> q_store_checked (q_present X s o) s o = (if coord_fits X then Ok X else Err EOverflow))
+  /\ (forall X sc off s o X', (0 < s)%Q -> q_store_checked (q_present X sc off) s o = Ok X' ->
+       fitsP X' /\ (Qabs (q_present X' s o - q_present X sc off) <= s / 2)%Q).
+Proof. exact (conj q_view_same_grid q_view_other_grid). Qed.
+Print Assumptions C11_view_grid.
+
 (* a concrete instance: header scale replaced (1e-2 -> 1e-3 as rationals), x assigned (the record takes the header's
    arrays), offset edited in place (seen through the alias), a write that rescales, a change_scaling that overflows,
    and the regression witness of the old unsound check in binary64 (v = 0x1.dcd650112e0bfp+29, s = 1e-9, o = 1e9) *)
@@ -240,6 +381,16 @@ Example C11_nonvacuous :
   /\ (let e0 := init Q [1 # 100; 1 # 100; 1 # 100]%Q [0; 0; 0]%Q [[]; []; []] in
       let e := fst (q_run e0 [HReplaceS [1 # 1000; 1 # 1000; 1 # 1000]%Q; AssignXYZ [[12345 # 10000]; [23456 # 10000]; [34567 # 10000]]%Q]) in
       ints e = [[1234]; [2346]; [3457]] /\ r_s e = h_s e)
+  (* a writer opened with the caller's header, a chunk, the caller's header edited IN PLACE (x scale 1e-3 -> 1/2, x offset 1 -> 500),
+     a second chunk, close: the file carries the scaling of the opening, both chunks are on that grid *)
+  /\ (let ss := mksst s None in
+      let r := q_srun ss [SOpenHdr; SWrite; SBase (HMutateS 0%nat (1 # 2)%Q); SBase (HMutateO 0%nat (500 # 1)%Q); SWrite; SClose] in
+      nth 5 (snd r) ONone = OFile (mkfile [1 # 1000; 1 # 100; 1 # 100]%Q [1; 0; 0]%Q [[1250; -3000; 1124000; -1001000]; [5; 6; 5; 6]; [7; 8; 7; 8]])
+      /\ ints (base (fst r)) = ints s)
+  (* dst.x = src.x between records of equal scale 1/100 and offsets 1200 / 0: the coordinate 1200.01 is stored as 1, not as 120001 *)
+  /\ (let e0 := init Q [1 # 100; 1 # 100; 1 # 100]%Q [1200; 0; 0]%Q [[0]; [0]; [0]] in
+      ints (base (fst (q_sstep (mksst e0 None) (SAttr 0%nat (VOther [120001] (1 # 100)%Q 0%Q))))) = [[1]; [0]; [0]]
+      /\ snd (q_sstep (mksst e0 None) (SItem 0%nat (VOther [2147483647] (1 # 100)%Q (4000 # 1)%Q))) = OErr EOverflow)
   /\ f_store (Some (Qmake 0x1dcd650112e0bf (Z.to_pos (2 ^ 23)))) (Some (Qmake 0x112e0be826d695 (Z.to_pos (2 ^ 82))))
              (Some (inject_Z 1000000000)) = Some 2147483706
   /\ f_store_checked (Some (Qmake 0x1dcd650112e0bf (Z.to_pos (2 ^ 23)))) (Some (Qmake 0x112e0be826d695 (Z.to_pos (2 ^ 82))))
